@@ -221,20 +221,26 @@ func newHeaderLemma(c *Ctx, rule string) *headerLemma {
 			}
 		})
 	}
-	// the mask expanders are pure
-	for _, v := range []ssa.Value{vSats, vSigs} {
+	// the mask expanders and the cell-matrix builder are pure functions of their arguments:
+	// they touch no package-level variable and call nothing outside themselves
+	for _, v := range []ssa.Value{vSats, vSigs, vCells} {
 		if cl, ok := v.(*ssa.Call); ok && cl.Call.StaticCallee() != nil {
-			pure := true
-			eachInstr(cl.Call.StaticCallee(), func(ins ssa.Instruction) {
-				if u, ok := ins.(*ssa.UnOp); ok && u.Op == token.MUL {
-					if _, isG := u.X.(*ssa.Global); isG {
-						pure = false
+			fnx := cl.Call.StaticCallee()
+			eachInstr(fnx, func(ins ssa.Instruction) {
+				var ops []*ssa.Value
+				for _, op := range ins.Operands(ops) {
+					if op != nil && *op != nil {
+						if _, isG := (*op).(*ssa.Global); isG {
+							bad(fnx.Name() + " uses package-level state (its result could depend on earlier messages)")
+						}
+					}
+				}
+				if ci, ok := ins.(ssa.CallInstruction); ok {
+					if _, isB := ci.Common().Value.(*ssa.Builtin); !isB {
+						bad(fnx.Name() + " calls other code (not a pure function of its arguments)")
 					}
 				}
 			})
-			if !pure {
-				bad("mask expander reads package state")
-			}
 		}
 	}
 	// P4: no other stores to the three shape fields / NumSignalCells in non-test module code
